@@ -2900,5 +2900,7 @@ fn main() {
             "container_kinds": CKINDS.iter().map(|k| k.name()).collect::<Vec<_>>(),
         }),
     );
+    // coverage-guided byte-level campaign (libFuzzer target `zaddr_parse`, oracle inside the target)
+    ctx.run_fuzz("zaddr_parse", ctx.tier.pick(500_000, 10_000_000), ctx.tier.pick(4, 16), 2048);
     ctx.finish();
 }
